@@ -84,11 +84,21 @@ def impl_rr(op):
         r = op.reverse()
     except ValueError:
         return {"err": "ValueError"}
+    except Exception as e:                      # anything else is a result to report, not a harness crash
+        return {"err": "raised " + type(e).__name__}
+    if not isinstance(r, ops.MigrateOperation):
+        return {"err": "returned %s" % type(r).__name__}
     out = {"viewR": ro.view_json(r), "r": r}
     try:
         rr = r.reverse()
     except ValueError:
         out["err2"] = "ValueError"
+        return out
+    except Exception as e:
+        out["err2"] = "raised " + type(e).__name__
+        return out
+    if not isinstance(rr, ops.MigrateOperation):
+        out["err2"] = "returned %s" % type(rr).__name__
         return out
     out["viewRR"] = ro.view_json(rr)
     out["rr"] = rr
@@ -153,10 +163,17 @@ def check_leafs(ctx, leafs, where):
         if "err" in imp or "err" in m:
             if imp.get("err") != m.get("err"):
                 ctx.disagree("rev.rr", {"op": j}, {k: v for k, v in imp.items() if k in ("err",)}, m)
+                if m.get("reversible") is True and "err" in imp:
+                    # the Lean spec says the op is reversible; the implementation could not reverse it
+                    ctx.fail({"op": j, "where": where}, "involution(unexplained): reverse() of a reversible op fails: %s" % imp["err"],
+                             impl={"reverse": imp["err"]}, tags=["residual"])
             else:
                 ctx.trace_ok()
                 ctx.hist("reverse_error", imp.get("err"))
             continue
+        if "err2" in imp and m.get("reversible") is True and "err2" not in m:
+            ctx.fail({"op": j, "where": where}, "involution(unexplained): reverse().reverse() of a reversible op fails: %s" % imp["err2"],
+                     impl={"reverse_reverse": imp["err2"]}, tags=["residual"])
         ok = ro.norm(m.get("viewR")) == imp["viewR"] and (
             ("err2" in imp and imp.get("err2") == m.get("err2")) or
             ("viewRR" in imp and ro.norm(m.get("viewRR")) == imp["viewRR"]))
@@ -200,7 +217,15 @@ def diff_kinds(container):
         diffs = container.as_diffs()
     except ValueError:
         return None
-    return ["alterColumn" if isinstance(d, list) else DIFF_KIND.get(d[0], "other:%s" % d[0]) for d in diffs]
+    out = []
+    for d in diffs:
+        if isinstance(d, list):
+            out.append("alterColumn")
+        elif isinstance(d, tuple) and d:
+            out.append(DIFF_KIND.get(d[0], "other:%s" % (d[0],)))
+        else:
+            out.append("other:%r" % (d,))          # a leaf whose to_diff_tuple() returns something else
+    return out
 
 
 def check_trees(ctx, trees, where):
@@ -209,7 +234,7 @@ def check_trees(ctx, trees, where):
     for up, down in trees:
         q.append({"op": "rev.tree", "ops": [ro.op_json(o) for o in up]})
         q.append({"op": "rev.order", "ups": leaf_tags(ops.UpgradeOps(ops=up)),
-                  "downs": [t[0] for t in leaf_tags(down)] if down is not None else []})
+                  "downs": [t[0] for t in leaf_tags(down)] if isinstance(down, ops.OpContainer) else []})
     ans = ctx.drv.ask(q)
     for k, (up, down) in enumerate(trees):
         m, s = ans[2 * k], ans[2 * k + 1]
@@ -219,13 +244,32 @@ def check_trees(ctx, trees, where):
             # hypothesis of C09.populate_order: every op autogenerate emits is reversible
             ctx.fail(inp, "populate: autogenerate emitted an upgrade op that cannot be reversed (no stored _reverse / existing_* values)",
                      impl={"up": inp["ops"]}, tags=["populate"])
+        if isinstance(down, Exception):
+            ctx.disagree("rev.tree", inp, {"err": "raised " + type(down).__name__}, m)
+            if m.get("reversible") is True:
+                ctx.fail(inp, "order: UpgradeOps.reverse() of a tree of reversible ops raises %s" % type(down).__name__,
+                         impl={"err": repr(down)[:300]}, tags=["order"])
+            continue
+        if where == "autogenerate":
+            # a ModifyTableOps container names the table its rendered batch_alter_table()/directives act on
+            for c in list(up) + list(down.ops):
+                if isinstance(c, ops.ModifyTableOps):
+                    bad = [type(o).__name__ for o in c.ops
+                           if (getattr(o, "schema", c.schema), getattr(o, "table_name", c.table_name)) != (c.schema, c.table_name)
+                           and not isinstance(o, ops.CreateForeignKeyOp)]
+                    bad += [type(o).__name__ for o in c.ops if isinstance(o, ops.CreateForeignKeyOp)
+                            and (o.kw.get("source_schema"), o.source_table) != (c.schema, c.table_name)]
+                    if bad:
+                        ctx.fail(inp, "undo-target: ModifyTableOps(%r, schema=%r) holds ops on another table: %s (the rendered "
+                                 "migration would alter the wrong table)" % (c.table_name, c.schema, bad), impl={"ops": inp["ops"]},
+                                 tags=["undo"])
         if down is None:
             if m.get("err") != "ValueError":
                 ctx.disagree("rev.tree", inp, {"err": "ValueError"}, m)
             else:
                 ctx.trace_ok()
             continue
-        iv = [ro.view_json(o) for o in down.ops]
+        iv = [ro.view_json(o) if isinstance(o, ops.MigrateOperation) else {"k": "other:%s" % type(o).__name__} for o in down.ops]
         if "err" in m or [ro.norm(x) for x in m["down"]] != iv:
             ctx.disagree("rev.tree", inp, {"down": iv}, m)
         else:
@@ -235,6 +279,8 @@ def check_trees(ctx, trees, where):
             up2 = [ro.view_json(o) for o in down.reverse().ops]
         except ValueError:
             up2 = "ValueError"
+        except Exception as e:
+            up2 = "raised " + type(e).__name__
         m2 = m.get("up2")
         if (m2 if isinstance(m2, str) else [ro.norm(x) for x in m2]) != up2:
             ctx.disagree("rev.tree/DowngradeOps.reverse", inp, {"up2": up2}, {"up2": m2})
@@ -243,6 +289,9 @@ def check_trees(ctx, trees, where):
             dk = diff_kinds(cont)
             if dk is not None and dk != [t[0] for t in tags_]:
                 ctx.disagree("as_diffs-kinds", inp, {"as_diffs": dk}, {"op_classes": [t[0] for t in tags_]})
+                # kinds(...) as a user reads them (as_diffs) are not the kinds of the ops: the reverse-order sentence fails
+                ctx.fail(inp, "order: kinds read through as_diffs() are %s but the ops are %s (expected downgrade kinds %s)"
+                         % (dk, [t[0] for t in tags_], s.get("expected")), impl={"as_diffs": dk}, tags=["order"])
         n = len(q[2 * k + 1]["ups"])
         ctx.hist("tree_leaves(%s)" % where, min(n, 12))
         if n:
@@ -287,7 +336,36 @@ def apply_ops(conn, container):
             op.invoke(o)
 
 
-def autogen_case(ctx, pair):
+def battery_pairs():
+    """small fixed schema pairs, each executed in every mode: single-kind changes (which batch mode applies without a
+    table recreate) on a table of the default schema and of an attached schema"""
+    def tbl(schema, name, cols, idxs=(), uqs=(), fks=(), **kw):
+        return dict({"schema": schema, "name": name, "cols": [{"name": "id", "ty": "INTEGER", "nullable": False, "pk": True}] +
+                     [{"name": c, "ty": "INTEGER", "nullable": True, "pk": False} for c in cols],
+                     "idxs": list(idxs), "uqs": list(uqs), "fks": list(fks)}, **kw)
+    out = []
+    for sch in (None, "s2"):
+        schemas = [None] + (["s2"] if sch else [])
+        ref = tbl(sch, "t_a", ["a_1"])
+        ix = {"name": "ix_tb_0", "unique": False, "cols": ["a_1"]}
+        uix = {"name": "ix_tb_1", "unique": True, "cols": ["a_1", "b_1"]}
+        uq = {"name": "uq_tb_0", "cols": ["b_1"]}
+        fk = {"name": "fk_tb_0", "col": "a_1", "ref": "t_a", "ondelete": "CASCADE", "deferrable": True, "initially": "DEFERRED",
+              "onupdate": None}
+        plain = lambda **kw: tbl(sch, "t_b", ["a_1", "b_1"], **kw)      # noqa: E731
+        variants = [("add-index", plain(), plain(idxs=[ix, uix])), ("drop-index", plain(idxs=[ix, uix]), plain()),
+                    ("change-index", plain(idxs=[ix]), plain(idxs=[dict(ix, cols=["b_1"])])),
+                    ("add-unique", plain(), plain(uqs=[uq])), ("drop-unique", plain(uqs=[uq]), plain()),
+                    ("add-fk", plain(), plain(fks=[fk])), ("drop-fk", plain(fks=[fk]), plain()),
+                    ("add-column", plain(), tbl(sch, "t_b", ["a_1", "b_1", "c_x"])),
+                    ("without-rowid-drop", tbl(sch, "t_b", ["a_1"], without_rowid=True), None)]
+        for name, a, b in variants:
+            out.append(("%s/%s" % (sch or "main", name),
+                        {"schemas": schemas, "conn": [ref, a], "meta": [ref] + ([b] if b is not None else []), "comments": False}))
+    return out
+
+
+def autogen_case(ctx, pair, mode=None):
     """returns (upgrade ops list, DowngradeOps) and runs the execute-and-compare oracle"""
     eng, conn = fs.make_db(pair)
     try:
@@ -297,8 +375,13 @@ def autogen_case(ctx, pair):
         with warnings.catch_warnings():
             warnings.simplefilter("ignore")
             mc = MigrationContext.configure(conn, opts={"include_schemas": inc, "compare_server_default": True})
-            base = ag_api.compare_metadata(mc, md_a)
-            script = ag_api.produce_migrations(mc, md_b)
+            try:
+                base = ag_api.compare_metadata(mc, md_a)
+                script = ag_api.produce_migrations(mc, md_b)
+            except Exception as e:      # autogenerate itself fails: no migration to judge; reported, not a harness crash
+                ctx.disagree("autogenerate", {"pair": pair}, {"raised": "%s: %s" % (type(e).__name__, str(e)[:200])}, {},
+                             note="produce_migrations / compare_metadata raised on a schema pair of the C06 class")
+                return ([], ops.DowngradeOps(ops=[]))
             up, down = script.upgrade_ops, script.downgrade_ops
             result = (list(up.ops), down)
             schemas_ = fs.inspected_schemas(conn, inc)
@@ -313,9 +396,11 @@ def autogen_case(ctx, pair):
             # server default, which autogenerate stores as a DefaultClause object) or Operations.invoke of the op objects
             has_default = any(c.get("default") is not None for side in ("conn", "meta") for t in pair[side] for c in t["cols"])
             rendered = has_default or (len(pair["conn"]) + len(pair["meta"])) % 2 == 0
+            if mode is not None:
+                rendered = mode != "invoke"
             apply = apply_rendered if rendered else apply_ops
             via = "rendered script (batch)" if rendered else "invoke (batch)"
-            if rendered and sqlite_can_alter(up, down):
+            if rendered and sqlite_can_alter(up, down) and (mode == "nobatch" or (mode is None and len(json.dumps(pair)) % 2 == 0)):
                 # plain op.add_column / op.drop_column / op.create_index / op.drop_index directives
                 apply = lambda c_, o_: apply_rendered(c_, o_, batch=False)  # noqa: E731
                 via = "rendered script (no batch)"
@@ -324,6 +409,21 @@ def autogen_case(ctx, pair):
                 apply(conn, up)
             except Exception as e:
                 ctx.hist("undo_oracle", "skipped: upgrade not executable on SQLite (%s)" % type(e).__name__)
+                if rendered:
+                    # the rendered migration does not run: do the op objects themselves run (fresh database)?
+                    eng2, conn2 = fs.make_db(pair)
+                    try:
+                        apply_ops(conn2, up)
+                        ok_invoke = True
+                    except Exception:
+                        ok_invoke = False
+                    finally:
+                        conn2.close()
+                        eng2.dispose()
+                    if ok_invoke:
+                        ctx.fail({"pair": pair, "where": "undo"}, "undo-exec: the rendered upgrade fails on SQLite (%s: %s) although "
+                                 "invoking the same op objects succeeds" % (type(e).__name__, str(e)[:200]),
+                                 impl={"up": [ro.op_json(o) for o in up.ops]}, tags=["undo"])
                 return result
             try:
                 apply(conn, down)
@@ -377,6 +477,8 @@ def run(ctx, n=None, rng_name="main"):
             down = ops.UpgradeOps(ops=up).reverse()
         except ValueError:
             down = None
+        except Exception as e:                  # reported by check_trees, never a harness crash
+            down = e
         trees.append((up, down))
     for i in range(0, len(trees), 300):
         check_trees(ctx, trees[i:i + 300], "generated")
@@ -385,6 +487,13 @@ def run(ctx, n=None, rng_name="main"):
     for _ in range(n_pairs):
         pair = fs.gen_pair(rng, big=ctx.thorough, with_schema=rng.random() < 0.15, c06_class=True, table_opts=True)
         up, down = autogen_case(ctx, pair)
+        auto_trees.append((up, down))
+        auto_leafs.extend(flatten(up))
+    # fixed battery: single-kind changes x {default, attached} schema x every way of executing the migration
+    for name, pair in battery_pairs():
+        for mode in ("batch", "nobatch", "invoke"):
+            ctx.hist("battery", mode)
+            up, down = autogen_case(ctx, pair, mode=mode)
         auto_trees.append((up, down))
         auto_leafs.extend(flatten(up))
     check_trees(ctx, auto_trees, "autogenerate")
